@@ -2556,3 +2556,110 @@ func RRangePend(c *core.Ctx) {
 		c.Anchor("continue statements in the member loop of scanCharSet")
 	}
 }
+
+// R-TENTATIVE: nothing is added to a class on a path that can still be rolled back.
+func RTentative(c *core.Ctx) {
+	c.Rule("R-TENTATIVE", "in the parser, between saving the text position (v := p.textpos()) and a roll-back to it (p.textto(v)) no member is added to the class under construction (CharSet.add* calls): the roll-back re-reads the same characters as ordinary members, so whatever was added tentatively stays in the class although the construct was not recognised", 1)
+	p := c.P
+	syn := p.Pkg("syntax")
+	if syn == nil {
+		c.Anchor("package syntax")
+		return
+	}
+	info := syn.TypesInfo
+	textpos := p.LookupFunc("syntax", "parser.textpos")
+	textto := p.LookupFunc("syntax", "parser.textto")
+	if textpos == nil || textto == nil {
+		c.Anchor("syntax.parser.textpos / textto")
+		return
+	}
+	n := 0
+	for _, fd := range p.FuncDecls(syn) {
+		if fd.Body == nil || p.IsTestFile(fd.Pos()) {
+			continue
+		}
+		name := core.DeclName(syn, fd)
+		// saved positions
+		saved := map[types.Object]bool{}
+		ast.Inspect(fd.Body, func(x ast.Node) bool {
+			as, ok := x.(*ast.AssignStmt)
+			if !ok || len(as.Lhs) != 1 || len(as.Rhs) != 1 {
+				return true
+			}
+			call, ok := ast.Unparen(as.Rhs[0]).(*ast.CallExpr)
+			if !ok || !core.IsCallTo(info, call, textpos) {
+				return true
+			}
+			if id, ok := as.Lhs[0].(*ast.Ident); ok {
+				saved[info.ObjectOf(id)] = true
+			}
+			return true
+		})
+		if len(saved) == 0 {
+			continue
+		}
+		var restores []*ast.CallExpr
+		var adds []*ast.CallExpr
+		ast.Inspect(fd.Body, func(x ast.Node) bool {
+			call, ok := x.(*ast.CallExpr)
+			if !ok {
+				return true
+			}
+			if core.IsCallTo(info, call, textto) && len(call.Args) == 1 {
+				if id, ok := ast.Unparen(call.Args[0]).(*ast.Ident); ok && saved[info.ObjectOf(id)] {
+					restores = append(restores, call)
+				}
+			}
+			if fn := core.Callee(info, call); fn != nil && strings.HasPrefix(fn.Name(), "add") {
+				if sig, ok := fn.Type().(*types.Signature); ok && sig.Recv() != nil {
+					if _, tn := core.NamedOf(sig.Recv().Type()); tn == "CharSet" {
+						adds = append(adds, call)
+					}
+				}
+			}
+			return true
+		})
+		if len(restores) == 0 || len(adds) == 0 {
+			continue
+		}
+		g := core.NewGraph(info, fd.Body)
+		for ri, rs := range restores {
+			n++
+			c.Visit(name)
+			// the save this restore refers to: innermost enclosing block that contains an assignment of the variable
+			vid := ast.Unparen(rs.Args[0]).(*ast.Ident)
+			var saveStmt ast.Node
+			ast.Inspect(fd.Body, func(x ast.Node) bool {
+				as, ok := x.(*ast.AssignStmt)
+				if !ok || len(as.Lhs) != 1 {
+					return true
+				}
+				if id, ok := as.Lhs[0].(*ast.Ident); ok && info.ObjectOf(id) == info.ObjectOf(vid) && as.Pos() < rs.Pos() {
+					saveStmt = as
+				}
+				return true
+			})
+			bad := ""
+			rb, _ := g.BlockOf(rs)
+			for _, ad := range adds {
+				if saveStmt == nil || ad.Pos() < saveStmt.Pos() || ad.Pos() > rs.Pos() {
+					continue
+				}
+				ab, ai := g.BlockOf(ad)
+				if ab == nil || rb == nil {
+					continue
+				}
+				// can the add reach the restore without passing the save again?
+				isRestore := func(nd ast.Node) bool { return nd.Pos() <= rs.Pos() && rs.End() <= nd.End() }
+				isSave := func(nd ast.Node) bool { return saveStmt != nil && nd.Pos() <= saveStmt.Pos() && saveStmt.End() <= nd.End() }
+				if _, reaches := g.ReachesWithout(ab, ai, isRestore, isSave); reaches {
+					bad = types.ExprString(ad.Fun) + " at " + p.Pos(ad.Pos())
+				}
+			}
+			c.Check(bad == "", fmt.Sprintf("%s / roll-back #%d of the text position comes before anything was added to the class", name, ri+1), rs.Pos(), "%s runs before this p.textto(%s): what it added stays in the class when the construct is abandoned", bad, vid.Name)
+		}
+	}
+	if n == 0 {
+		c.Anchor("a roll-back p.textto(saved) in a function that also adds to a class")
+	}
+}
